@@ -67,6 +67,24 @@ type BeaconScenario struct {
 	ExpectNone bool      `json:"expect_none,omitempty"` // fewer than t contributors: no beacon may appear
 	SyncLies   string    `json:"sync_lies,omitempty"`   // behaviour of byzantine members as sync peers
 	StallSync  int       `json:"stall_sync,omitempty"`  // honest->honest sync streams stall after k items (-1/0 off)
+	Backends   []string  `json:"backends,omitempty"`    // per node; overrides Backend when set
+	Hole       int       `json:"hole,omitempty"`        // >0: DKG index Hole-1 did not qualify: the group's indices skip it
+	Reshare    *Reshare  `json:"reshare,omitempty"`
+}
+
+// Reshare: all members switch to a fresh sharing of the same secret with threshold
+// NewT at round AtRound (through Handler.TransitionNewGroup, announced AnnounceMs before).
+type Reshare struct {
+	AtRound    uint64 `json:"at_round"`
+	NewT       int    `json:"new_t"`
+	AnnounceMs int64  `json:"announce_ms"` // when TransitionNewGroup is called (from start)
+}
+
+type epoch struct {
+	from  uint64 // first round signed by this epoch's shares
+	t     int
+	dealt *Dealt
+	group *key.Group
 }
 
 type putRec struct {
@@ -80,9 +98,13 @@ type putRec struct {
 
 type bNode struct {
 	e      *beaconEngine
-	idx    int
+	idx    int // position in the node list
+	sidx   int // DKG / share index (differs from idx when the group has a hole)
 	addr   string
 	role   string
+	storeFailN  int           // the next N Puts on the base store fail (disk error)
+	storeSlow   time.Duration // every base store operation takes this long (slow disk)
+	storeSlowTo time.Time
 	clock  *SimClock
 	dir    string
 	gen    int
@@ -109,6 +131,7 @@ type beaconEngine struct {
 	ref    *RefScheme
 	sch    *crypto.Scheme
 	dealt  *Dealt
+	epochs []*epoch
 	chain  *RefChain
 	group  *key.Group
 	pairs  []*key.Pair
@@ -128,10 +151,45 @@ type recStore struct {
 	n *bNode
 }
 
+var errDisk = fmt.Errorf("sim: injected disk error")
+
+func (s *recStore) slow() {
+	s.n.mu.Lock()
+	d, to := s.n.storeSlow, s.n.storeSlowTo
+	s.n.mu.Unlock()
+	if d > 0 && time.Now().Before(to) {
+		s.n.e.rec.Count("fault:slow_disk_op", 1)
+		time.Sleep(d)
+	}
+}
+
+func (s *recStore) Last(ctx context.Context) (*common.Beacon, error) {
+	s.slow()
+	return s.Store.Last(ctx)
+}
+
+func (s *recStore) Get(ctx context.Context, r uint64) (*common.Beacon, error) {
+	s.slow()
+	return s.Store.Get(ctx, r)
+}
+
 func (s *recStore) Put(ctx context.Context, b *common.Beacon) error {
 	e := s.n.e
 	round, sig, prev := b.Round, append([]byte(nil), b.Signature...), append([]byte(nil), b.PreviousSig...)
-	err := s.Store.Put(ctx, b)
+	s.slow()
+	s.n.mu.Lock()
+	fail := s.n.storeFailN > 0 && round > 0
+	if fail {
+		s.n.storeFailN--
+	}
+	s.n.mu.Unlock()
+	var err error
+	if fail {
+		err = errDisk
+		e.rec.Count("fault:disk_put_error", 1)
+	} else {
+		err = s.Store.Put(ctx, b)
+	}
 	seq := e.rec.Ev("put", s.n.addr, "round=%d ok=%v", round, err == nil)
 	s.n.mu.Lock()
 	s.n.puts = append(s.n.puts, putRec{seq: seq, t: time.Now(), round: round, sig: sig, prev: prev, err: err})
@@ -184,7 +242,7 @@ func (ep *beaconEP) Unary(ctx context.Context, method string, req []byte) (proto
 		cur := refCurrentRound(nowU, e.sc.PeriodS, e.gen.Unix())
 		seq := e.rec.Seq()
 		valid, idx := e.partialValid(p)
-		if valid && idx != n.idx {
+		if valid && idx != n.sidx {
 			n.mu.Lock()
 			m := n.contrib[p.Round]
 			if m == nil {
@@ -253,14 +311,25 @@ func min64(a, b uint64) uint64 {
 
 // partialValid decides, with harness keys only, whether p is the partial
 // member idx must produce for (round, expected previous signature).
+func (e *beaconEngine) epochOf(round uint64) *epoch {
+	ep := e.epochs[0]
+	for _, x := range e.epochs {
+		if round >= x.from {
+			ep = x
+		}
+	}
+	return ep
+}
+
 func (e *beaconEngine) partialValid(p *drand.PartialBeaconPacket) (bool, int) {
 	ps := p.GetPartialSig()
 	if len(ps) < 2 {
 		return false, -1
 	}
 	idx := int(binary.BigEndian.Uint16(ps[:2]))
-	if idx >= len(e.dealt.Shares) {
-		return false, idx
+	ep := e.epochOf(p.Round)
+	if idx >= len(ep.dealt.Shares) || ep.group.Node(uint32(idx)) == nil {
+		return false, idx // not a member of the group that signs this round
 	}
 	if e.ref.Chained && (p.Round == 0 || p.Round >= 1<<20) {
 		return false, idx
@@ -272,7 +341,7 @@ func (e *beaconEngine) partialValid(p *drand.PartialBeaconPacket) (bool, int) {
 			return false, idx
 		}
 	}
-	want := e.ref.PartialSig(idx, e.dealt.Shares[idx].V, e.ref.Digest(p.Round, prev))
+	want := e.ref.PartialSig(idx, ep.dealt.Shares[idx].V, e.ref.Digest(p.Round, prev))
 	return bytes.Equal(want, ps), idx
 }
 
@@ -289,7 +358,7 @@ func (e *beaconEngine) onPut(n *bNode, seq int, round uint64, sig, prev []byte, 
 		return
 	}
 	// C04: with fewer than t fast or byzantine members, nobody holds round r early
-	if round >= 1 && e.fastOrByz() < e.sc.T {
+	if round >= 1 && e.fastOrByz() < e.epochOf(round).t && e.fastOrByz() < e.sc.T {
 		due := time.Unix(refTimeOfRound(round, e.sc.PeriodS, e.gen.Unix()), 0)
 		if time.Now().Before(due.Add(-time.Microsecond)) {
 			e.rec.Violate("C04", "beacon-before-its-time", "early", "node %s stored round %d at %s, %s before its time", n.addr, round, time.Now().UTC().Format(time.RFC3339Nano), due.Sub(time.Now()))
@@ -305,13 +374,13 @@ func (e *beaconEngine) onPut(n *bNode, seq int, round uint64, sig, prev []byte, 
 		n.mu.Lock()
 		cnt := 1
 		for idx, s := range n.contrib[round] {
-			if s < seq && idx != n.idx {
+			if s < seq && idx != n.sidx {
 				cnt++
 			}
 		}
 		n.mu.Unlock()
-		if cnt < e.sc.T {
-			e.rec.Violate("C03", "aggregated-below-threshold", "below", "node %s stored round %d with %d distinct valid contributors (own partial included) before the Put, threshold %d", n.addr, round, cnt, e.sc.T)
+		if thr := e.epochOf(round).t; cnt < thr {
+			e.rec.Violate("C03", "aggregated-below-threshold", "below", "node %s stored round %d with %d distinct valid contributors (own partial included) before the Put, threshold %d", n.addr, round, cnt, thr)
 		}
 		e.rec.Count("probe:c03_counted_puts", 1)
 	}
@@ -334,7 +403,7 @@ func (e *beaconEngine) openStore(n *bNode) (chain.Store, error) {
 	if e.sch.Name == crypto.DefaultSchemeID {
 		ctx = chain.SetPreviousRequiredOnContext(ctx)
 	}
-	switch e.sc.Backend {
+	switch e.backendOf(n) {
 	case "memdb":
 		return memdb.NewStore(e.sc.MemSize), nil
 	case "bolt":
@@ -344,6 +413,24 @@ func (e *beaconEngine) openStore(n *bNode) (chain.Store, error) {
 	}
 }
 
+func (e *beaconEngine) backendOf(n *bNode) string {
+	if n.idx < len(e.sc.Backends) && e.sc.Backends[n.idx] != "" {
+		return e.sc.Backends[n.idx]
+	}
+	return e.sc.Backend
+}
+
+// configAt returns the epoch whose group a node starting now must be given.
+func (e *beaconEngine) configAt(now time.Time) *epoch {
+	ep := e.epochs[0]
+	for _, x := range e.epochs {
+		if x.group.TransitionTime != 0 && now.Unix() >= x.group.TransitionTime {
+			ep = x
+		}
+	}
+	return ep
+}
+
 func (e *beaconEngine) startNode(n *bNode, catchup bool) error {
 	base, err := e.openStore(n)
 	if err != nil {
@@ -351,7 +438,7 @@ func (e *beaconEngine) startNode(n *bNode, catchup bool) error {
 	}
 	n.gen++
 	st := &recStore{Store: base, n: n}
-	if e.sc.Backend == "memdb" && catchup {
+	if e.backendOf(n) == "memdb" && catchup {
 		// what the daemon does for the in-memory back-end before it builds the handler
 		// (storeCurrentFromPeerNetwork, exercised for real in E-daemon): start from the
 		// newest beacon a live peer holds
@@ -368,10 +455,11 @@ func (e *beaconEngine) startNode(n *bNode, catchup bool) error {
 	}
 	client := &SimClient{W: e.w, Self: n.addr}
 	client.TapPartial = func(to string, p *drand.PartialBeaconPacket) { e.onEmit(n, to, p) }
+	ep := e.configAt(n.clock.Now())
 	conf := &beacon.Config{
-		Public: e.group.Nodes[n.idx],
-		Share:  &key.Share{DistKeyShare: kdkg.DistKeyShare{Share: e.dealt.Shares[n.idx], Commits: e.dealt.Commits}, Scheme: e.sch},
-		Group:  e.group,
+		Public: ep.group.Nodes[n.idx],
+		Share:  &key.Share{DistKeyShare: kdkg.DistKeyShare{Share: ep.dealt.Shares[n.sidx], Commits: ep.dealt.Commits}, Scheme: e.sch},
+		Group:  ep.group,
 		Clock:  n.clock,
 	}
 	lg, _ := NewNodeLogger(e.rec, n.addr, dlog.DebugLevel, false, nil, func() {
@@ -391,6 +479,11 @@ func (e *beaconEngine) startNode(n *bNode, catchup bool) error {
 	n.mu.Unlock()
 	e.w.Register(n.addr, &beaconEP{n})
 	e.rec.Ev("node_start", n.addr, "gen=%d catchup=%v", n.gen, catchup)
+	// a reshare announced while the node was down (or before it restarted) is announced again
+	if len(e.epochs) > 1 && ep != e.epochs[len(e.epochs)-1] {
+		nx := e.epochs[len(e.epochs)-1]
+		h.TransitionNewGroup(context.Background(), &key.Share{DistKeyShare: kdkg.DistKeyShare{Share: nx.dealt.Shares[n.sidx], Commits: nx.dealt.Commits}, Scheme: e.sch}, nx.group)
+	}
 	if catchup {
 		h.Catchup(context.Background())
 		return nil
@@ -421,7 +514,7 @@ func (e *beaconEngine) onEmit(n *bNode, to string, p *drand.PartialBeaconPacket)
 		e.rec.Violate("C04", "partial-before-round-time", "emit", "node %s released a partial for round %d at its own time %d, scheduled time %d", n.addr, p.Round, now.Unix(), due)
 	}
 	// own contribution for C03
-	if ok, idx := e.partialValid(p); ok && idx == n.idx {
+	if ok, idx := e.partialValid(p); ok && idx == n.sidx {
 		seq := e.rec.Seq()
 		n.mu.Lock()
 		m := n.contrib[p.Round]
@@ -456,15 +549,24 @@ func (e *beaconEngine) setup() error {
 	e.period = time.Duration(sc.PeriodS) * time.Second
 	e.start = time.Now()
 	e.gen = time.Unix(e.start.Unix()+int64(sc.GenesisInS), 0)
-	e.dealt = Deal(e.ref, sc.Seed^0xdea1, sc.N, sc.T)
+	nshares := sc.N
+	if sc.Hole > 0 {
+		nshares = sc.N + 1
+	}
+	e.dealt = Deal(e.ref, sc.Seed^0xdea1, nshares, sc.T)
 	var nodes []*key.Node
+	sidx := make([]int, sc.N)
 	for i := 0; i < sc.N; i++ {
 		p, err := seededPair(fmt.Sprintf("node%d.sim:443", i), e.sch, H64(sc.Seed, "pair", i))
 		if err != nil {
 			return err
 		}
 		e.pairs = append(e.pairs, p)
-		nodes = append(nodes, &key.Node{Identity: p.Public, Index: uint32(i)})
+		sidx[i] = i
+		if sc.Hole > 0 && i >= sc.Hole-1 {
+			sidx[i] = i + 1
+		}
+		nodes = append(nodes, &key.Node{Identity: p.Public, Index: uint32(sidx[i])})
 	}
 	e.group = &key.Group{
 		Threshold: sc.T, Period: e.period, CatchupPeriod: time.Duration(sc.CatchupMs) * time.Millisecond,
@@ -473,13 +575,14 @@ func (e *beaconEngine) setup() error {
 	}
 	e.group.GenesisSeed = e.group.Hash()
 	e.chain = NewRefChain(e.ref, e.dealt.Master, e.group.GenesisSeed)
+	e.epochs = []*epoch{{from: 0, t: sc.T, dealt: e.dealt, group: e.group}}
 	e.lg, _ = NewNodeLogger(e.rec, "shared", dlog.ErrorLevel, false, nil, nil)
 	for i := 0; i < sc.N; i++ {
 		skew := time.Duration(0)
 		if i < len(sc.SkewMs) {
 			skew = time.Duration(sc.SkewMs[i]) * time.Millisecond
 		}
-		n := &bNode{e: e, idx: i, addr: nodes[i].Address(), role: sc.Roles[i], clock: NewSimClock(skew, 7*(i+1)),
+		n := &bNode{e: e, idx: i, sidx: sidx[i], addr: nodes[i].Address(), role: sc.Roles[i], clock: NewSimClock(skew, 7*(i+1)),
 			dir: filepath.Join(e.dir, fmt.Sprintf("n%d", i)), first: map[uint64]int{}, contrib: map[uint64]map[int]int{}}
 		n.fast = skew > 0
 		if err := os.MkdirAll(n.dir, 0o755); err != nil {
@@ -588,12 +691,50 @@ func (e *beaconEngine) apply(a Act) {
 			e.w.StallNode(n.addr, d)
 			e.rec.Count("fault:stall", 1)
 		}
+	case "store_err":
+		if n != nil {
+			n.mu.Lock()
+			n.storeFailN += int(a.A)
+			n.mu.Unlock()
+		}
+	case "slow_store":
+		if n != nil {
+			n.mu.Lock()
+			n.storeSlow, n.storeSlowTo = time.Duration(a.A)*time.Millisecond, time.Now().Add(time.Duration(a.B)*time.Millisecond)
+			n.mu.Unlock()
+		}
+	case "reshare":
+		e.announceReshare()
 	case "byz":
 		e.byzAct(a)
 	case "observe":
 		if n != nil {
 			go e.observe(n, uint64(a.A), int(a.B))
 		}
+	}
+}
+
+// announceReshare deals the same secret again with the new threshold and tells
+// every running honest node to switch at the transition round.
+func (e *beaconEngine) announceReshare() {
+	rs := e.sc.Reshare
+	if rs == nil || len(e.epochs) > 1 {
+		return
+	}
+	nshares := len(e.dealt.Shares)
+	nd := Redeal(e.ref, e.sc.Seed^0x4e5a, nshares, rs.NewT, e.dealt.Master)
+	g := *e.group
+	g.Threshold = rs.NewT
+	g.TransitionTime = refTimeOfRound(rs.AtRound, e.sc.PeriodS, e.gen.Unix())
+	g.PublicKey = &key.DistPublic{Coefficients: nd.Commits}
+	ep := &epoch{from: rs.AtRound, t: rs.NewT, dealt: nd, group: &g}
+	e.epochs = append(e.epochs, ep)
+	e.rec.Count("fault:reshare", 1)
+	for _, n := range e.liveHonest() {
+		n.mu.Lock()
+		h := n.h
+		n.mu.Unlock()
+		h.TransitionNewGroup(context.Background(), &key.Share{DistKeyShare: kdkg.DistKeyShare{Share: nd.Shares[n.sidx], Commits: nd.Commits}, Scheme: e.sch}, &g)
 	}
 }
 
@@ -632,7 +773,7 @@ func (e *beaconEngine) observe(n *bNode, from uint64, max int) {
 // ---- byzantine members -------------------------------------------------------------
 
 func (e *beaconEngine) byzPartial(idx int, round uint64, prev []byte) []byte {
-	return e.ref.PartialSig(idx, e.dealt.Shares[idx].V, e.ref.Digest(round, prev))
+	return e.ref.PartialSig(idx, e.epochOf(round).dealt.Shares[idx].V, e.ref.Digest(round, prev))
 }
 
 func (e *beaconEngine) byzAct(a Act) {
@@ -641,6 +782,7 @@ func (e *beaconEngine) byzAct(a Act) {
 		return
 	}
 	self := e.nodes[idx].addr
+	idx = e.nodes[idx].sidx // from here on: the DKG index the member signs with
 	cur := refCurrentRound(time.Now().Unix(), e.sc.PeriodS, e.gen.Unix())
 	round := uint64(int64(cur) + a.A)
 	if int64(cur)+a.A < 1 {
@@ -671,14 +813,24 @@ func (e *beaconEngine) byzAct(a Act) {
 			s := e.ref.KeyGroup.Scalar().Pick(newSeededStream(H64(e.sc.Seed, "rs", round)))
 			return []*drand.PartialBeaconPacket{pk(round, prev, e.ref.PartialSig(idx, s, e.ref.Digest(round, prev)))}
 		case "other_index": // own signature under another member's index
-			other := (idx + 1) % e.sc.N
+			other := e.nodes[(a.Node+1)%e.sc.N].sidx
 			ps := append([]byte(nil), good...)
 			binary.BigEndian.PutUint16(ps, uint16(other))
 			return []*drand.PartialBeaconPacket{pk(round, prev, ps)}
 		case "victim_index": // claims to be the receiver itself
 			ps := append([]byte(nil), good...)
-			binary.BigEndian.PutUint16(ps, uint16(target.idx))
+			binary.BigEndian.PutUint16(ps, uint16(target.sidx))
 			return []*drand.PartialBeaconPacket{pk(round, prev, ps)}
+		case "evicted_member": // a valid share of the polynomial whose index is not in the group
+			if e.sc.Hole > 0 {
+				return []*drand.PartialBeaconPacket{pk(round, prev, e.byzPartial(e.sc.Hole-1, round, prev))}
+			}
+			return nil
+		case "old_epoch": // a partial made with the share of the previous epoch
+			if len(e.epochs) > 1 && round >= e.epochs[1].from {
+				return []*drand.PartialBeaconPacket{pk(round, prev, e.ref.PartialSig(idx, e.epochs[0].dealt.Shares[idx].V, e.ref.Digest(round, prev)))}
+			}
+			return nil
 		case "nonmember_index":
 			ps := append([]byte(nil), good...)
 			binary.BigEndian.PutUint16(ps, uint16(e.sc.N+3))
@@ -1021,7 +1173,7 @@ func (e *beaconEngine) finalChecks(healAt time.Time, gap uint64, res *RunResult)
 				}
 				all[b.Round][n.addr] = held{append([]byte(nil), b.Signature...), append([]byte(nil), b.PreviousSig...)}
 				if b.Round >= 1 {
-					if msg := e.chain.CheckBeacon(b.Round, b.PreviousSig, b.Signature); msg != "" && (sc.Backend != "memdb") {
+					if msg := e.chain.CheckBeacon(b.Round, b.PreviousSig, b.Signature); msg != "" && (e.backendOf(n) != "memdb") {
 						e.rec.Violate("C02", "scan-beacon-not-on-chain", "scan", "node %s: %s", n.addr, msg)
 					}
 				}
@@ -1031,13 +1183,13 @@ func (e *beaconEngine) finalChecks(healAt time.Time, gap uint64, res *RunResult)
 		if err != nil {
 			e.rec.Ev("scan_err", n.addr, "%v", err)
 		}
-		if sc.Backend == "memdb" && len(rounds) > 1 && rounds[0] == 0 && rounds[1] != 1 {
+		if e.backendOf(n) == "memdb" && len(rounds) > 1 && rounds[0] == 0 && rounds[1] != 1 {
 			rounds = rounds[1:] // genesis plus the bootstrapped window
 		}
 		if len(rounds) > 0 {
 			heads[n.addr] = rounds[len(rounds)-1]
 			first := rounds[0]
-			if sc.Backend != "memdb" && first != 0 {
+			if e.backendOf(n) != "memdb" && first != 0 {
 				e.rec.Violate("C02", "chain-does-not-start-at-0", "scan", "node %s: first stored round is %d", n.addr, first)
 			}
 			for i := 1; i < len(rounds); i++ {
@@ -1059,6 +1211,9 @@ func (e *beaconEngine) finalChecks(healAt time.Time, gap uint64, res *RunResult)
 			}
 			if !bytes.Equal(ref.sig, h.sig) {
 				e.rec.Violate("C02", "nodes-disagree", "fork", "round %d differs between %s and %s", r, who, a)
+			}
+			if !bytes.Equal(ref.prev, h.prev) && r > 0 {
+				e.rec.Violate("C02", "nodes-disagree", "prev", "round %d: the previous signature held by %s and %s differs (%x.. vs %x..)", r, who, a, head(ref.prev), head(h.prev))
 			}
 		}
 	}
@@ -1087,7 +1242,7 @@ func (e *beaconEngine) finalChecks(healAt time.Time, gap uint64, res *RunResult)
 				continue
 			}
 			seen[p.round] = p.sig
-			if haveLast && p.round != 0 && p.round != last+1 && sc.Backend != "memdb" {
+			if haveLast && p.round != 0 && p.round != last+1 && e.backendOf(n) != "memdb" {
 				e.rec.Violate("C02", "put-skips-round", "skip", "node %s wrote round %d after round %d", n.addr, p.round, last)
 			}
 			if p.round != 0 || !haveLast {
